@@ -17,6 +17,10 @@ func init() {
 				gen.Seq(gen.Lit("1.0", "1.0.", "1.0+", "1.0-1", "1.0-1.", "2.5..", "1.0.~rc1", "1.0.-1", "1.0-2")),
 				gen.Seq(gen.Lit("1.", "1-"), gen.Lit("18446744073709551616", "18446744073709551617", "0000000000000000000000001", "99999999999999999999", "100000000000000000000", "18446744073709551615", "2", "02")),
 			)
+			if lvl > 0 {
+				piece := gen.Lit("0", "1", "2", "10", "01", "a", "z", "A", ".", "_", "+", "~", "^", "ab")
+				g = gen.Alt(g, gen.Seq(gen.Lit("1", "a", "10"), gen.Rep(piece, 3, 3)), gen.Seq(gen.Lit("1.0", "1"), gen.Rep(piece, 1, 2), gen.Lit("-1", "-2.el7", "-a")))
+			}
 			for _, v := range ref.RpmVectors {
 				g = append(g, v[0], v[1])
 			}
